@@ -238,6 +238,9 @@ func (db *SpecDB) LoadFile(path string, pkg string) error {
 			if kind == "frame" {
 				c := &Clause{Kind: "loopframe", Src: rest3, Loop: n, File: it.file, Line: it.line}
 				for _, part := range splitTopLevel(rest3, ',') {
+					if part == "nothing" {
+						continue
+					}
 					e, err := ParseExpr(part)
 					if err != nil {
 						return fail("%v", err)
